@@ -188,6 +188,11 @@ class ExprMixin:
             return S_val(CONSTS.get("builtin", "NotImplemented"))
         if self.spec_mode and name in self.reg.theory:
             return Sym("pyobj", None, None, ("theory", name))
+        if self.spec_mode:
+            # a contracted function of another module, named without qualification in a specification
+            hits = [q for q in self.reg.contracts if q.endswith("." + name) and not q.startswith(("local:", "method:"))]
+            if len(hits) == 1:
+                return Sym("func", None, None, hits[0])
         raise Unsupported(f"unresolved name {name!r}")
 
     def module_constant(self, module, name, st) -> Sym:
@@ -468,6 +473,12 @@ class ExprMixin:
 
     def contains(self, container: Sym, x: Sym, st):
         container = self._unwrap_container(container, st)
+        if container.kind == "set" and container.spec is not None and container.spec.tup == "hash" and not self.spec_mode:
+            hashable = uf("py_hashable", V, BoolS)
+            xb = box(x, st)
+            if x.kind == "pyobj" and x.py[0] == "pytuple":
+                st.assume(hashable(xb) == z3.And(*[hashable(box(it, st)) for it in x.py[1]]))   # a tuple hashes its items
+            self.may_raise(st, z3.Not(hashable(xb)), "TypeError", "unhashable probe of a hash set")
         if container.kind in ("seq", "set"):
             if is_prim(x) or elem_spec(container).kind in ("str", "int", "prim") or container.kind == "set":
                 return seq_contains(container.t, box(x, st), st)
